@@ -44,8 +44,9 @@ def gen(src, consts):
             order.append('clear-inbound')
     if front is None or closeok_via is None:
         raise ExtractError('_close_channel: reason or CloseOk not found')
-    if order != ['state:CLOSING', 'closeok', 'drop-tags', 'clear-inbound', 'reason', 'state:CLOSED']:
-        raise ExtractError('_close_channel: statement order changed: %r' % order)
+    if sorted(o for o in order if not o.startswith('state:')) != ['clear-inbound', 'closeok', 'drop-tags', 'reason'] or \
+            len([o for o in order if o.startswith('state:')]) != 2:
+        raise ExtractError('_close_channel: statements changed: %r' % order)
     # the CloseOk attempt is guarded by `if not self._connection.is_closed`
     guards = [ast.unparse(st.test) for st in ast.walk(f) if isinstance(st, ast.If)]
     if 'not self._connection.is_closed' not in guards:
@@ -100,8 +101,10 @@ def gen(src, consts):
             'def closeOkBypassesChannelCheck : Bool := %s\n'
             '/-- `_close_connection` records the reason before it publishes the CLOSED state -/\n'
             'def connReasonBeforeState : Bool := %s\n'
+            '/-- the effects of `_close_channel` in source order -/\n'
+            'def closeChannelOrder : List String := [%s]\n'
             'end Amqp.Gen.ChanErr\n' % (str(front).lower(), str(closeok_via == 'connection').lower(),
-                                        str(seq == ['reason', 'state']).lower()))
+                                        str(seq == ['reason', 'state']).lower(), ', '.join('"%s"' % o for o in order)))
 
 
 FILES = {'ChanErr.lean': gen}
